@@ -147,6 +147,27 @@ theorem C14_resumes (env : Env) (f : Nat) (s : St) (p : Prog) :
     (eval env f s p).1.recs.length = s.recs.length ∧ (eval env f s p).1.recs.tail = s.recs.tail :=
   ⟨(eval_shape env f s p).2, (eval_shape env f s p).1⟩
 
+/-- **`get_or_insert` from inside a loader** goes through the same look-up as `get_cached`
+(`_get_cached_entry`): it adds the asset — present or absent — to the top frame if that frame is
+recording, and does nothing else to the thread's recording before the loader continues (with the
+value found, or with its own value once stored). -/
+theorem C14_get_or_insert_records (env : Env) (f : Nat) (s : St) (key : Key) (v : Val) (k : Val → Prog) :
+    ∃ s' w, s'.recs = (s.record (recordsAsset (env.types key.ty).hot env.hasReloader) (.asset key)).recs ∧
+      eval env (f + 1) s (.getOrInsert key v k) = eval env f s' (k w) := by
+  simp only [eval]
+  cases (s.record (recordsAsset (env.types key.ty).hot env.hasReloader) (.asset key)).lookup key with
+  | some c => exact ⟨(s.record (recordsAsset (env.types key.ty).hot env.hasReloader) (.asset key)).handOut key.ty, c.val, rfl, rfl⟩
+  | none => simp only []; exact ⟨_, v, by simp [St.own], rfl⟩
+
+/-- a cache with reloader whose types are all hot-reloaded -/
+def exEnvHot : Env :=
+  { read := fun _ _ _ => .ok [], readDir := fun _ _ => .ok [],
+    types := fun _ => { hot := true, prog := fun _ => .panic }, hasReloader := true }
+
+/-- the loader of a reloadable asset fills a slot: the key is in its record -/
+example : (eval exEnvHot 3 { recs := [some []] } (.getOrInsert ⟨0, "a"⟩ (.int 1) .ret)).1.recs = [some [.asset ⟨0, "a"⟩]] := by
+  decide
+
 /-- Top-level calls (outside any load) record nothing and leave the thread's recording empty. -/
 theorem C14_top_level_clean (env : Env) (f : Nat) (s : St) (p : Prog) :
     (evalTop env f s p).1.recs = [] := rfl
